@@ -134,6 +134,9 @@ def order_job(job):
             t = project(rec, probes.LOG.snapshot(), cfg, ei)
             t["id"] = f"{job['id']}/e{ei}"
             t["first_eligible"] = not wall
+            if not wall and out["traces"]:
+                # same system, same initial graph state, another schedule: must agree on the common prefix (C02, off-grid)
+                t["ref"] = dict(steps=out["traces"][0]["steps"], msgs=out["traces"][0]["msgs"])
             out["traces"].append(t)
             if S is not None and S.task_errors:
                 out["events"].append(dict(kind="task_error", detail=repr(S.task_errors[:3])))
